@@ -10,8 +10,9 @@ RULE = ('rrect correspondence (rr_all = confine_radii + contains() bitmap over b
         'distributions; p_rr_sweep (implementation only): for EVERY size 0..12 x 0..12 every combination of the 8 radius components over {0,1,2} '
         '(quick; {0,1,2,3} and {0,1,3,5,8} on more sizes in thorough): points == filter contains, confined radii fit, rows/columns contiguous.')
 PARTIAL = []
-ASSUMPTIONS = ['rrect (rr_ok): base rectangle within +-2^29 / extents within 2^29 (no i32/u32 saturation), corner radii non-negative (u32); '
-               'EllipseContains products are modelled unbounded (the code uses u64: exact while (2*radius)^4 < 2^64, i.e. confined radii < 2^15)']
+ASSUMPTIONS = ['rrect domain rr_dom = rr_ok (base rectangle within +-2^29 / extents within 2^29: no i32/u32 saturation; radii non-negative) and '
+               'rr_arith_ok = true (every intermediate of confine [u32 products], EllipseQuadrant/EllipseContains [u32/u64], RoundedRectangleContains::new, '
+               'scanlines [i32] fits its Rust type); C08_rrect_arith_fits: sides <= 16383 and radii <= 65535 suffice']
 TRUSTED = ['rrect: hand-written model coq/Model/Rrect.v (Scanlines/Points as the lists they yield, Range::find/rfind as List.find on the range) '
            'validated by differential testing against the real code, not proved equal to it']
 
